@@ -67,7 +67,7 @@ fn line_input_one_stdin<S: InterpreterTrait>(
     interpreter: &mut S,
     index: usize,
 ) -> Result<(), RuntimeError> {
-    let s = interpreter.stdin().input()?;
+    let s = interpreter.stdin().line_input()?;
     interpreter.context_mut()[index] = Variant::VString(s);
     Ok(())
 }
